@@ -195,6 +195,17 @@ def fn_let_from_non_function(prog):
     return False
 
 
+def bool_ordering_compare(prog):
+    """< <= > >= whose operand is evidently a bool (a comparison / logic result, a bool literal, not): the type checker
+    accepts it (typechecker-operand-class-gaps), the generated C trips -Werror=parentheses / compares ints."""
+    def is_bool(e):
+        return isinstance(e, tuple) and e and (e[0] == "bool" or (e[0] == "un" and e[1] == "not") or
+                                               (e[0] == "bin" and e[1] in ("<", "<=", ">", ">=", "==", "!=", "and", "or")) or
+                                               (e[0] == "bi" and e[1] in ("str_contains", "str_equals")))
+    return any(e and e[0] == "bin" and e[1] in ("<", "<=", ">", ">=") and (is_bool(e[2]) or is_bool(e[3])) for e in prog_exprs(prog))
+
+
+ALL["bool_ordering_compare"] = bool_ordering_compare
 ALL["string_ordering_compare"] = string_ordering_compare
 ALL["fn_let_from_non_function"] = fn_let_from_non_function
 
